@@ -64,6 +64,9 @@ func bases() []base {
 	out = append(out, base{name: "ki-two-graphs", two: true, where: []bqlm.Clause{cl(bt("?s"), pc("ki"), bt("?v"))}, proj: []bqlm.Proj{pj("?s"), pj("?v")}, keys: []string{"?v", "?s"}})
 	// aggregate outputs
 	out = append(out, base{name: "agg", where: []bqlm.Clause{cl(bt("?s"), pc("kn"), bt("?v"))}, proj: []bqlm.Proj{pj("?v"), {Binding: "?s", Op: "count", Alias: "?c"}}, group: []string{"?v"}, keys: []string{"?c", "?v"}})
+	// two grouping keys listed in GROUP BY in another order than in the SELECT list (the text column does not order the
+	// subjects the way the int64 column does)
+	out = append(out, base{name: "agg2", where: []bqlm.Clause{cl(bt("?s"), pc("ki"), bt("?v")), cl(bt("?s"), pc("kt"), bt("?w"))}, proj: []bqlm.Proj{pj("?v"), pj("?w"), {Binding: "?s", Op: "count", Alias: "?c"}}, group: []string{"?w", "?v"}, keys: []string{"?w", "?v"}})
 	out = append(out, base{name: "aggsum", where: []bqlm.Clause{cl(bt("?s"), bt("?p"), bt("?o")), cl(bt("?s"), pc("ki"), bt("?n"))}, proj: []bqlm.Proj{pj("?p"), {Binding: "?n", Op: "sum", Alias: "?sum"}}, group: []string{"?p"}, keys: []string{"?sum"}}) // ?p is not a key here: a group merging one instant written in two zones has no single printed form
 	return out
 }
